@@ -71,6 +71,17 @@ func (c *conn) store(index int, resultChan chan data) {
 	c.lock.Unlock()
 }
 
+// storeIfFree registers resultChan under index unless a pending call owns that identifier.
+func (c *conn) storeIfFree(index int, resultChan chan data) (stored bool) {
+	c.lock.Lock()
+	if _, busy := c.results[index]; !busy {
+		c.results[index] = resultChan
+		stored = true
+	}
+	c.lock.Unlock()
+	return
+}
+
 func (c *conn) delete(index int) {
 	c.lock.Lock()
 	delete(c.results, index)
@@ -108,7 +119,14 @@ func (c *conn) Transport(ctx context.Context, request []byte) (response []byte, 
 	}
 	index := int(atomic.AddInt32(&c.counter, 1) & 0x7fff)
 	resultChan := make(chan data, 1)
-	c.store(index, resultChan)
+	for tries := 0; !c.storeIfFree(index, resultChan); tries++ {
+		// the identifier space is 15 bits: a call that has been pending while 32767 others
+		// came and went still owns its identifier; take the next one
+		if tries >= 0x7fff {
+			return nil, core.ErrTimeout // every identifier belongs to a pending call
+		}
+		index = int(atomic.AddInt32(&c.counter, 1) & 0x7fff)
+	}
 	if atomic.LoadInt32(&c.closed) != 0 {
 		// the connection ended before this call was registered: nobody will
 		// answer it or fail it, so fail it here instead of waiting forever.
